@@ -10,7 +10,9 @@ loo_predictions are called.  The matrices the implementation itself builds (K_xx
 self.L, mu, the gradient matrices / vectors of covariance_and_gradients /
 mean_and_gradients) and every output are written as exact rationals to
 coq/gen/C11/cases_*.v, where the SAME model text instantiated at ListOps is evaluated by
-vm_compute and compared inside Coq (Matrix/SelectionCheck.v, nine obligations per case).
+vm_compute (on the bigQ instance Matrix/BigOps.v; the small cases also on ListOps, with
+exact agreement required) and compared inside Coq (Matrix/SelectionCheck.v, ten
+obligations per case).
 The score VALUES contain logarithms: for n <= 4 they are coq-interval goals over R built
 from the exact rationals the model computes (ml_goal, ml_closed_goal, loo_goal,
 loo_refit_goal).
@@ -30,7 +32,11 @@ from __future__ import annotations
 
 import json
 import math
+import os
 import warnings
+
+os.environ.setdefault("OMP_NUM_THREADS", "1")        # tiny matrices: BLAS threads only burn CPU
+os.environ.setdefault("OPENBLAS_NUM_THREADS", "1")
 from fractions import Fraction
 
 import numpy as np
@@ -47,7 +53,7 @@ THEOREMS = ["C11_ml_value_algebra", "C11_value_and_gradient_same_value", "C11_ml
             "C11_ml_gradient_is_derivative_n2"]
 
 HEADER = MX.HEADER.format(mods="Matrix.GpModel Matrix.Selection Matrix.SelectionCheck")
-N_OBL = 9
+N_OBL = 10
 OBLIGATION_NAMES = {
     0: "model could not be evaluated (an inverse failed its run-time verification)",
     1: "cholesky(K_xx) is not a lower-triangular factor with positive diagonal of K_xx + sig",
@@ -58,6 +64,7 @@ OBLIGATION_NAMES = {
     6: "leave-one-out predictions differ from the REFIT predictions",
     7: "quadratic parts / value and value-and-gradient variants disagree",
     8: "det(K_xx + sig) differs from (prod L_ii)^2",
+    9: "the two executable instances (BigOps, ListOps) of the model disagree on this case",
 }
 MS_NAMES = {0: "shapes of the recorded run", 1: "starting positions differ from lwr + (upr-lwr)*u ..., centre last",
             2: "selected hyper-parameters are not the first result of minimal cost",
@@ -308,7 +315,7 @@ def qvec_frac(fr):
     return "[" + "; ".join(f"({f.numerator} # {f.denominator})" for f in fr) + "]"
 
 
-def coq_case(case, out):
+def coq_case(case, out, cross=False):
     t = tolerances(case, out)
     nm = out["nm"]
     f = [("s_n", C.cnat(case["n"])), ("s_A", MX.qmat(out["A"])), ("s_L", MX.qmat(out["L"])),
@@ -320,7 +327,7 @@ def coq_case(case, out):
          ("o_loo", C.cq(out["loo"])), ("o_loog", C.cq(out["loog"])),
          ("o_loo_grad_mean", MX.qvec(out["loo_grad"][:nm])), ("o_loo_grad_cov", MX.qvec(out["loo_grad"][nm:])),
          ("o_loo_mu", MX.qvec(out["loo_mu"])), ("o_loo_sig", MX.qvec(out["loo_sig"])),
-         ("s_refit", C.cbool(refit_supported(case))),
+         ("s_refit", C.cbool(refit_supported(case))), ("s_cross", C.cbool(cross)),
          ("r_mu", qvec_frac(out["r_mu"])), ("r_var", qvec_frac(out["r_var"]))]
     f += [(f"t_{k}", MX.qtol(t[k])) for k in ("f", "g", "h", "m", "v", "q", "d", "l", "r")]
     return "{| " + ";\n   ".join(f"{k} := {v}" for k, v in f) + " |}"
@@ -502,12 +509,16 @@ def run(rep: C.Report, tier: str) -> int:
         j = loads.index(min(loads))
         buckets[j].append(k)
         loads[j] += weight(k)
+    # the small cases are evaluated on BOTH executable instances (exact agreement, obligation 9)
+    small = [k for k in ok_idx if cases[k]["n"] <= 3 and len(outs[k]["theta"]) <= 5]
+    cross = set(small[:8 if tier == "quick" else 40])
+    rep.coverage["cases_cross_checked_on_both_instances"] = len(cross)
     files, index = [], []
     for j, bucket in enumerate(buckets):
         if not bucket:
             continue
         body = ("Definition cases : list sel_case :=\n [" +
-                ";\n  ".join(coq_case(cases[k], outs[k]) for k in bucket) + "].")
+                ";\n  ".join(coq_case(cases[k], outs[k], k in cross) for k in bucket) + "].")
         files.append(C.write_case_file(PROP, f"cases_{j}", HEADER, body, ["failing_sel cases"]))
         index.append(bucket)
 
